@@ -655,3 +655,15 @@ def refdata_scene(rng, idx, perturb=0):
         msa = float(stem.split('MSA')[1].split('.')[0])
     return {'rows': rows, 'names': sorted(set(r[0] for r in rows)), 'order': 'shuf' if perturb == 1 else 'file',
             'fam': 'refdata', 'file': stem, 'msa': msa}
+
+
+def quantised_heights(rng):
+    """Heights of one thin layer reported with a coarse vertical resolution (few distinct values,
+    many repeats): the regime in which a mixture component may stay unpopulated (issue #119)."""
+    n = int(rng.integers(35, 120))
+    k = int(rng.integers(5, 12))
+    p = float(rng.uniform(0.3, 0.6))
+    steps = rng.binomial(k, p, n).astype(float)
+    base = float(rng.choice([300.0, 1000.0, 5000.0, 12000.0]))
+    res = float(rng.choice([5.0, 10.0, 20.0]))
+    return base + res * steps
